@@ -2,7 +2,7 @@
     Model: Model/C13_Coanc.v (mirrors the four from_gmat estimators and the DenseCoancestryMatrix views/summaries).
     A genotype matrix is its allele-count table X (n taxa x m markers), [from_gmat c pl m X] is the call
     [c] in {molecular, VanRaden p_anc, Yang p_anc, weighted mkrwt afreq} on ploidy [pl]. *)
-From PV Require Import Lib.Common Model.C13_Coanc Proofs.C13_Coanc.
+From PV Require Import Lib.Common Model.C13_Coanc Proofs.C13_Coanc Proofs.C13_Optimal Proofs.C13_Phased Proofs.C13_Cert Proofs.C13_Singular.
 Local Open Scope Q_scope.
 
 (** Molecular coancestry is twice the average identity-by-state probability of alleles drawn from the two
@@ -83,11 +83,59 @@ Theorem C13_max_inbreeding : forall G : list (list Q), G <> [] ->
 Proof. exact max_inbreeding_spec. Qed.
 Print Assumptions C13_max_inbreeding.
 
-(** The model's inverse is a two-sided inverse whenever it is produced (exact check, no trust in the elimination). *)
+(** ... also for a phased matrix as stored (phases x taxa x loci): the allele counts the estimator sees are the
+    dosages of the stored alleles, so the same identity holds with the alleles read off the phased array. *)
+Theorem C13_molecular_phased_is_twice_ibs : forall (n m : nat) (ph : list (list (list Z))) G i j,
+  (length ph = 1 \/ length ph = 2)%nat -> (0 < m)%nat -> phases_ok n m ph -> (i < n)%nat -> (j < n)%nat ->
+  mol_from_gmat (Z.of_nat (length ph)) m (tacount_ph n m ph) = ROk G ->
+  entry G i j == twice_mean_ibs (nth i (alleles_of n m ph) []) (nth j (alleles_of n m ph) []).
+Proof. exact mol_phased_is_twice_ibs. Qed.
+Print Assumptions C13_molecular_phased_is_twice_ibs.
+
+(** The model's inverse is a two-sided inverse of the right shape whenever it is produced (exact check, no trust
+    in the elimination), and the kinship-format inverse is an inverse of the kinship matrix. *)
 Theorem C13_inverse_sound : forall G H, inv_checked G = Some H ->
-  mat_eq (mmul G H) (ident (length G)) /\ mat_eq (mmul H G) (ident (length G)).
+  mat_eq (mmul G H) (ident (length G)) /\ mat_eq (mmul H G) (ident (length G)) /\
+  length H = length G /\ Forall (fun r => length r = length G) H.
 Proof. exact inv_checked_sound. Qed.
 Print Assumptions C13_inverse_sound.
+
+Theorem C13_inverse_kinship : forall G Hk, inverse_of Kinship G = Some Hk ->
+  mat_eq (mmul (mat_asformat Kinship G) Hk) (ident (length G)).
+Proof. exact inverse_kinship_sound. Qed.
+Print Assumptions C13_inverse_kinship.
+
+(** min_inbreeding = 1 / sum(inv(G)) is the minimum attainable x'Gx over all contribution vectors x with sum 1
+    (lower bound for every x, and attained), for every matrix produced by the four estimators that has an inverse
+    with positive total; the kinship format is half of it. *)
+Theorem C13_min_inbreeding_optimal : forall c pl m X G H, rows_len m X -> admissible c pl X ->
+  from_gmat c pl m X = ROk G -> inv_checked G = Some H -> 0 < sumQ (concat H) ->
+  min_inbreeding Coancestry G = Some (min_inbreeding_of Coancestry H) /\
+  min_inbreeding Kinship G = Some (min_inbreeding_of Kinship H) /\
+  (forall x, length x = length G -> sumQ x == 1 -> min_inbreeding_of Coancestry H <= qform x G) /\
+  (exists x, length x = length G /\ sumQ x == 1 /\ qform x G == min_inbreeding_of Coancestry H) /\
+  min_inbreeding_of Kinship H == (1 # 2) * min_inbreeding_of Coancestry H.
+Proof. exact min_inbreeding_of_estimator. Qed.
+Print Assumptions C13_min_inbreeding_optimal.
+
+(** Soundness of the certificates that decide when is_positive_semidefinite(eigvaltol) is compared:
+    [Some true] means x'Gx >= (max(0,tol) + margin) x'x for every x (every eigenvalue clears the threshold by the
+    margin), [Some false] means some diagonal entry (a Rayleigh quotient) is below the threshold by the margin. *)
+Theorem C13_psd_certificate : forall n margin tol G, squareN n G -> symE G ->
+  (psd_decided margin tol G = Some true -> forall x, length x = n -> (Qmax' 0 tol + margin) * dotQ x x <= qform x G) /\
+  (psd_decided margin tol G = Some false -> exists i, (i < n)%nat /\ entry G i i < Qmax' 0 tol - margin).
+Proof.
+  intros n margin tol G SQ SY. split; [apply (psd_decided_true n margin tol G SQ SY) | apply (psd_decided_false n margin tol G SQ)].
+Qed.
+Print Assumptions C13_psd_certificate.
+
+(** With reference frequencies estimated from the matrix itself (the default arguments) the VanRaden, Yang and
+    weighted matrices are singular for every genotype matrix: 1'G1 = 0.  (So inverse / min_inbreeding are undefined
+    for them and no eigenvalue bound above 0 can hold: they are positive SEMI-definite only.) *)
+Theorem C13_estimated_frequencies_singular : forall c pl m X G, estimated c -> rows_len m X -> (pl <> 0)%Z -> X <> [] ->
+  from_gmat c pl m X = ROk G -> length G = length X /\ qform (repeat 1 (length G)) G == 0.
+Proof. exact estimated_freq_singular. Qed.
+Print Assumptions C13_estimated_frequencies_singular.
 
 (** non-vacuity: concrete inputs meeting the hypotheses of the theorems above *)
 Example C13_hyps_satisfiable :
@@ -98,10 +146,20 @@ Example C13_hyps_satisfiable :
   (exists G, from_gmat (CVr ANone) 2 3 [[0;1;2];[2;2;0];[1;1;1]]%Z = ROk G) /\
   (exists G, from_gmat (CYang (AScalar (1 # 4))) 2 3 [[0;1;2];[2;2;0];[1;1;1]]%Z = ROk G) /\
   (exists G, from_gmat (CGw (AArr [1; 1 # 2; 0]) (AScalar (1 # 2))) 2 3 [[0;1;2];[2;2;0];[1;1;1]]%Z = ROk G) /\
-  (exists G H, mol_from_gmat 2 3 [[0;1;2];[2;2;0];[2;1;1]]%Z = ROk G /\ inv_checked G = Some H).
+  (exists G H, mol_from_gmat 2 3 [[0;1;2];[2;2;0];[2;1;1]]%Z = ROk G /\ inv_checked G = Some H /\ 0 < sumQ (concat H)) /\
+  phases_ok 2 2 [[[0;1];[1;1]];[[0;0];[1;0]]]%Z /\ estimated (CGw ANone ANone) /\
+  (exists G, squareN 2 G /\ symE G /\ psd_decided (1 # 1000) (1 # 2) G = Some true) /\
+  (exists G, squareN 2 G /\ psd_decided (1 # 1000) 2 G = Some false).
 Proof.
-  unfold alleles_ok, locus_ok, is01, rows_len, dosages_ok, admissible, wt_nonneg, fixed_ref, dosages_ok.
+  unfold alleles_ok, phases_ok, locus_ok, is01, rows_len, dosages_ok, admissible, wt_nonneg, fixed_ref, dosages_ok, estimated.
   repeat match goal with
+         | |- exists G, squareN 2 G /\ symE G /\ _ => exists [[1; 0]; [0; 1]]
+         | |- exists G, squareN 2 G /\ psd_decided _ _ G = _ => exists [[1; 0]; [0; 1]]
+         | |- squareN _ _ => split; [reflexivity | repeat constructor]
+         | |- symE _ => let i := fresh "i" in let j := fresh "j" in intros i j; unfold entry; destruct i as [|[|[|i]]]; destruct j as [|[|[|j]]]; cbn [nth]; reflexivity
+         | |- psd_decided _ _ _ = _ => vm_compute; reflexivity
+         | |- 0 < _ => vm_compute; reflexivity
+         | |- True => exact I
          | |- _ /\ _ => split
          | |- Forall _ _ => constructor
          | |- exists _, _ => eexists
